@@ -184,6 +184,8 @@ def run(ctx):
     ctx.rule("R05.c", "in a flushing scope the `not <saved flag>`-guarded flush is passed on every exit after the "
                       "first TEMP-write of the batching flag (changes already applied are announced no later than the raise)", floor=3)
     ctx.rule("R05.d", "every flush call of a flushing scope is dominated by the restore of the batching flag", floor=3)
+    ctx.rule("R05.e", "when a field is set temporarily for every element of a collection and restored in a loop over the same collection, every iteration of the restoring loop reaches the restore", floor=1)
+    ctx.rule("R05.f", "in a context manager that saved a field and writes the saved value back, the write-back is passed on every exit after the yield (normal or exceptional)", floor=4)
     ctx.not_decided += ["that later dispatch equals that of a fresh object (behavioural equivalence)",
                         "loop-carried partial restores inside a finally (finally blocks are summarised as atomic)"]
     ctx.assumptions += [
@@ -200,6 +202,7 @@ def run(ctx):
         raise AnalysisError("only %d temporary scopes found (floor 9 confirmed on the pinned tree): %s" % (
             len(temp_scopes), ", ".join("%s/%s" % (s.f.name, s.fld) for s in temp_scopes)))
 
+    _extra_rules(ctx, scopes)
     for s in temp_scopes:
         f, cfg, fld = s.f, s.cfg, s.fld
         orig_ids = {w.id for w in s.orig}
@@ -297,3 +300,70 @@ def _reach_after(cfg: CFG, start: Node, stops: Set[int]) -> Set[int]:
             # a write node left through its own exceptional edge did not store
             stack.append(t)
     return seen
+
+
+def _extra_rules(ctx, scopes):
+    # ---- R05.e
+    for s in scopes:
+        if not s.is_temp_scope:
+            continue
+        f, cfg = s.f, s.cfg
+        temp_loops = {}
+        for wt in s.temp:
+            for t, part in wt.lex:
+                pass
+            for lp in ast.walk(f.node):
+                if isinstance(lp, ast.For) and any(sub is wt.ast for sub in ast.walk(lp)):
+                    temp_loops[norm(lp.iter)] = lp
+        for o in s.orig:
+            for lp in ast.walk(f.node):
+                if isinstance(lp, ast.For) and any(sub is o.ast for sub in ast.walk(lp)) and norm(lp.iter) in temp_loops and lp is not temp_loops[norm(lp.iter)]:
+                    # every normal path through one iteration of lp (copy containing o) reaches an ORIG-write
+                    heads = [n for n in cfg.live_nodes() if n.kind == "iter" and n.stmt is lp and cfg.dominates(n, o)]
+                    for h in heads:
+                        orig_ids = {w.id for w in s.orig}
+                        body_first = [t for l, t in h.succ if l == "t"]
+                        seen, stack, skipped = set(), list(body_first), False
+                        while stack:
+                            n = stack.pop()
+                            if n.id in seen:
+                                continue
+                            seen.add(n.id)
+                            if n.id in orig_ids:
+                                continue
+                            if n is h:
+                                skipped = True
+                                break
+                            stack.extend(t for l, t in n.succ if l != "e")
+                        if skipped:
+                            ctx.fail("R05.e", f, h, "an iteration of the restoring loop `for %s in %s` can finish without restoring %s (%s): the elements it skips keep their temporary value" % (
+                                norm(lp.target), norm(lp.iter), s.fld, s.orig_desc), key="%s::%s::partial-restore-loop" % (f.qualname, s.fld),
+                                input="p.param.update(b=3, a=<rejected>, e=True) leaves Event e in 'set' mode")
+                        else:
+                            ctx.ok("R05.e", f, h, "every iteration over %s restores %s" % (norm(lp.iter), s.fld))
+    # ---- R05.f
+    for s in scopes:
+        f, cfg = s.f, s.cfg
+        if not f.has_decorator("contextmanager") or not s.saves or not s.orig:
+            continue
+        ys = [n for n in cfg.live_nodes() if n.suspend]
+        orig_ids = {w.id for w in s.orig}
+        for y in ys:
+            seen, stack, bad = set(), [t for l, t in y.succ], None
+            while stack and bad is None:
+                n = stack.pop()
+                if n.id in seen:
+                    continue
+                seen.add(n.id)
+                if n.id in orig_ids:
+                    continue
+                if n is cfg.exit or n is cfg.excexit:
+                    bad = n
+                    break
+                stack.extend(t for l, t in n.succ)
+            if bad is None:
+                ctx.ok("R05.f", f, y, "%s: the saved value is written back on every exit after the yield" % s.fld)
+            else:
+                ctx.fail("R05.f", f, y, "%s saved %s before the body and writes it back, but not on the %s exit after the yield: what the body queued/changed survives a failing body" % (
+                    f.name, s.fld, "exceptional" if bad is cfg.excexit else "normal"), key="%s::%s::restore-not-on-every-exit" % (f.qualname, s.fld),
+                    input="with discard_events(p): p.a = 1; raise ...  -> the event for a is delivered at the next unrelated assignment")
